@@ -97,12 +97,12 @@ def header_objects(pose):
 class C06(common.Prop):
     ID = "C06"
     RUNNER = "codec"
-    MODEL_FILES = ["model/PoseRead.v", "model/C06_Heap.v", "base/Graph.v", "model/C06_Graph.v", "model/C06_GraphRun.v"]
+    MODEL_FILES = ["model/PoseRead.v", "model/C06_Heap.v", "base/Graph.v", "base/GraphEdit.v", "model/C06_Graph.v", "model/C06_GraphRun.v"]
     RULE = ("histories of 1..8 steps over five small files (same file; same header other body; shorter / equal-length / longer other "
             "header): reads (bytes or stream, full or windowed), in-place mutations of earlier results through every public mutator, "
             "copies; then a probe read. Each result is snapshotted when created and re-dumped at the end; the probe is compared with "
             "a read in a fresh memo state; object identity of every header sub-object and memory sharing of body arrays are compared "
-            "pairwise. non-trivial = history contains a mutation or a read of a different file before the probe; distinct by content")
+            "pairwise. non-trivial = history contains a mutation or a read of a different file before the probe; distinct by content " "Plus as many histories inside the object-graph model's scope (byte sources, v0.2 files), compared pose by pose at the end of the history; mutators include in-place mask edits, attribute assignment of new objects and components.pop().")
     TRUSTED = ["Coq 8.16.1 kernel", "harness/translate_py.py", "extraction: ExtrOcamlBasic only; runner/driver.ml",
                "harness/posegen.py dump / canonicalisers; id()- and np.shares_memory-based aliasing graph"]
     ASSUMPTIONS = ["hashlib.md5 is injective on the header slices compared", "copy.deepcopy produces an object graph disjoint from its argument"]
@@ -155,7 +155,7 @@ class C06(common.Prop):
         # histories inside the object-graph model's scope (byte sources, v0.2 files, edits that keep the set of objects): compared
         # with it pose by pose - every pose handed out, as it is at the END of the history
         gnames = [x for x in self.names if x != "A01"]
-        gmut = [m for m in MUTATORS if m != "pop_component"]
+        gmut = list(MUTATORS)
         for _ in range(n):
             steps = []
             nres = 0
@@ -291,6 +291,7 @@ class C06(common.Prop):
         # which results exist on the implementation side tells which reads handed a pose out (the model reports its own flags)
         ops, kinds = [], []
         handed_of_result = []      # result index -> handed index or None
+        model_ncomps = {}          # handed index -> component objects the model's copy of that pose has now
         nh = 0
         impl_finals = case.get("_impl_handed")      # list of bool per result slot
         ri = 0
@@ -308,6 +309,9 @@ class C06(common.Prop):
                     handed_of_result.append(None)
                     continue
                 ops.append([2, handed_of_result[st[1]]])
+                if ok:
+                    src = handed_of_result[st[1]]
+                    model_ncomps[nh] = model_ncomps.get(src, case["_ncomps"][st[1]])
                 handed_of_result.append(nh if ok else None)
                 nh += 1 if ok else 0
             else:
@@ -317,8 +321,14 @@ class C06(common.Prop):
                     continue
                 if any(not isinstance(x, int) for x in d["mask"]) or "data_dtype" in d or "conf_shape" in d:
                     return None
-                if len(d["comps"]) != case["_ncomps"][st[1]]:
-                    return None          # the edit removed / added an object: outside the payload-edit model
+                nc = model_ncomps.setdefault(k, case["_ncomps"][st[1]])
+                if st[2] == "pop_component" and len(d["comps"]) == nc - 1:
+                    ops.append([4, k, [0, 1]])                       # header.components.pop(): the list object loses its last pointer
+                    model_ncomps[k] = nc = nc - 1
+                elif st[2] == "new_dimensions":
+                    ops.append([3, k, [0], 0, list(d["dims"])])      # header.dimensions = PoseHeaderDimensions(...): a new object
+                if len(d["comps"]) != nc:
+                    return None          # some other edit changed which objects exist: outside the model
                 ops += self._cell_edits(k, d)
         f, kind, args = case["probe"]
         ops.append([0, self.names.index(f), pg.args_tree(args)])
